@@ -730,7 +730,8 @@ fn lead_ins(ext: &str) -> Vec<u32> {
         "pcb" => vec![b'@' as u32],
         "msg" => vec![1],
         "an1" => vec![b'|' as u32],
-        "ata" => vec![0x1b, 0x1c, 0x1d, 0x1e, 0x1f, 0x7d, 0x7e, 0x7f, 0x9b, 0x9c, 0x9d, 0x9e, 0x9f, 0xfd, 0xfe, 0xff],
+        // the statement's set: ESC and the cursor codes. The other control codes (clear 7d, delete 7e, tab 7f) are glyphs the writer escapes.
+        "ata" => vec![0x1b, 0x1c, 0x1d, 0x1e, 0x1f],
         _ => vec![],
     }
 }
@@ -771,7 +772,7 @@ fn build_c15(tier: &str) -> (Vec<Job>, Value) {
         let o = Opt { bits: DEFAULT_BITS | 64, prep: 0, ctrl: 0, ice: 0 };
         let leads = lead_ins(ext);
         let top = if ext == "ata" { 0x7f } else { 0xff };
-        let chars: Vec<u32> = (0x20..=top).filter(|c| *c != 0x7f && !leads.contains(c)).collect();
+        let chars: Vec<u32> = (0x20..=top).filter(|c| (*c != 0x7f || ext == "ata") && !leads.contains(c)).collect();
         let mut rows: Vec<Vec<TCell>> = Vec::new();
         for chunk in chars.chunks(w as usize / 2) {
             // every character twice in a row and once separated (repeat compression paths)
@@ -786,6 +787,29 @@ fn build_c15(tier: &str) -> (Vec<Job>, Value) {
                 r2.push(t(Cell::new(*c, 7, 0)));
             }
             rows.push(r2);
+        }
+        if ext == "ata" {
+            // inverse video: every character inverse, and every character between an inverse and a normal neighbour in both video states
+            for chunk in chars.chunks(w as usize / 4) {
+                let mut r = Vec::new();
+                let mut r2 = Vec::new();
+                for c in chunk {
+                    r.push(t(Cell::new(*c, 7, 1)));
+                    r2.extend([t(Cell::new(b'A' as u32, 7, 1)), t(Cell::new(*c, 7, 0)), t(Cell::new(b'B' as u32, 7, 0)), t(Cell::new(*c, 7, 1))]);
+                }
+                rows.push(r);
+                rows.push(r2);
+            }
+        }
+        if matches!(ext, "msg" | "an1" | "asc" | "avt" | "pcb") {
+            // documents that start like a UTF-8 byte order mark and are valid UTF-8 otherwise (the text loaders sniff one)
+            let bom = vec![t(Cell::new(0xEF, 7, 0)), t(Cell::new(0xBB, 7, 0)), t(Cell::new(0xBF, 7, 0)), t(Cell::new(b'A' as u32, 7, 0))];
+            let plain: Vec<TCell> = b"plain text".iter().map(|c| t(Cell::new(*c as u32, 7, 0))).collect();
+            let two: Vec<TCell> = [0xC3u32, 0xA9, b'x' as u32].iter().map(|c| t(Cell::new(*c, 7, 0))).collect();
+            n += 3;
+            chunk_docs(ext, w, vec![bom.clone()], 1, o, false, "starts like a byte order mark", &mut docs);
+            chunk_docs(ext, w, vec![bom.clone(), plain], 2, o, false, "starts like a byte order mark", &mut docs);
+            chunk_docs(ext, w, vec![bom, two], 2, o, false, "starts like a byte order mark, then a valid two byte sequence", &mut docs);
         }
         n += rows.len();
         chunk_docs(ext, w, rows, 40, o, false, "every printable character", &mut docs);
